@@ -1,7 +1,8 @@
 """C17 — XML helper round-trips (ncclient/xml_.py).
 Model: coq/Model/XTree.v, XmlHelpers.v; theorems: coq/Props/C17.v; harness: tools/harness/xmlgen.py."""
-import re, json, os, sys
+import re, json, os, sys, copy
 from harness import xmlgen as X
+from harness import xmlhist as H
 
 ID = 'C17'
 COQ_ROOTS = ['Props/C17.v', 'GenProps/XmlHelpers_consts.v']
@@ -10,8 +11,13 @@ RULE = ('Generated documents (names incl. non-ASCII, default/prefixed/undeclared
         'mixed content, nesting <= 5) serialised by the harness; constructor programs over new_ele/new_ele_ns/new_ele_nsmap/'
         'sub_ele/sub_ele_ns with random parents and attribute dictionaries; requirement sets for validated_element (str/list/'
         'tuple/empty/malformed alternatives); namespace pairs (present, absent, None) for replace_namespace; child elements '
-        'with tails; truncated/garbled documents for parse_root. A case is one (kind, document/program, arguments); '
-        'non-trivial = the tree has >= 2 elements or >= 1 attribute (documents) / >= 2 operations (programs).')
+        'with tails; truncated/garbled documents for parse_root; HISTORIES of 3-8 helper calls on ONE tree (parsed or built): '
+        'to_xml (default/explicit encoding, pretty_print), to_ele, validated_element, parse_root, a fresh parse, NCElement '
+        'views, constructor probes, replace_namespace / sub_ele / sub_ele_ns at random elements, always ending with to_xml of '
+        'the whole tree; after every call a deep snapshot of the caller\'s tree (tag, prefix, nsmap, attributes, text, tail, '
+        'children, siblings of the root, docinfo) and of the argument objects is compared with the one before. '
+        'A case is one (kind, document/program, arguments); non-trivial = the tree has >= 2 elements or >= 1 attribute '
+        '(documents) / >= 2 operations (programs, histories).')
 ASSUMES = ['libxml2 parser/serialiser (lxml 6.1.3) are oracles of the model: the parser is represented by the event stream of the '
            'independent reader (expat) on the same octets, the serialiser by its output octets',
            'to_xml is exercised with the default encoding and with ISO-8859-1 on documents whose serialisation is ASCII '
@@ -217,27 +223,45 @@ def run_replace(case, o):
             o.fail('serialised result of replace_namespace differs from the exact renaming', expected=want, actual=ind)
 
 
-def run_program(case, o):
+def build_program(ops):
+    """run a constructor program; attrs None = the argument is omitted (the helper's default is used).
+    Returns (root, model ops, node-at-path function)."""
     from ncclient import xml_
-    ops = case['ops']
     root, mops = None, []
     def node(path):
         n = root
         for i in path: n = n[i]
         return n
+    def A(a): return () if a is None else (dict(a),)
     for op in ops:
         k = op[0]
         if k == 'new_ele':
-            root = xml_.new_ele(op[1], dict(op[2])); mops.append([0, B(op[1]), attrs_val(op[2])])
+            root = xml_.new_ele(op[1], *A(op[2])); mops.append([0, B(op[1]), attrs_val(op[2] or [])])
         elif k == 'new_ele_ns':
-            root = xml_.new_ele_ns(op[1], op[2], dict(op[3])); mops.append([1, B(op[1]), nsval(op[2]), attrs_val(op[3])])
+            root = xml_.new_ele_ns(op[1], op[2], *A(op[3])); mops.append([1, B(op[1]), nsval(op[2]), attrs_val(op[3] or [])])
         elif k == 'new_ele_nsmap':
-            root = xml_.new_ele_nsmap(op[1], {p: u for p, u in op[2]}, dict(op[3]))
-            mops.append([2, B(op[1]), [[1 if p else 0, B(u)] for p, u in op[2]], attrs_val(op[3])])
+            root = xml_.new_ele_nsmap(op[1], {p: u for p, u in op[2]}, *A(op[3]))
+            mops.append([2, B(op[1]), [[1 if p else 0, B(u)] for p, u in op[2]], attrs_val(op[3] or [])])
         elif k == 'sub_ele':
-            xml_.sub_ele(node(op[1]), op[2], dict(op[3])); mops.append([3, op[1], B(op[2]), attrs_val(op[3])])
+            xml_.sub_ele(node(op[1]), op[2], *A(op[3])); mops.append([3, op[1], B(op[2]), attrs_val(op[3] or [])])
         elif k == 'sub_ele_ns':
-            xml_.sub_ele_ns(node(op[1]), op[2], op[3], dict(op[4])); mops.append([4, op[1], B(op[2]), nsval(op[3]), attrs_val(op[4])])
+            xml_.sub_ele_ns(node(op[1]), op[2], op[3], *A(op[4])); mops.append([4, op[1], B(op[2]), nsval(op[3]), attrs_val(op[4] or [])])
+    return root, mops, node
+
+
+def decorate(node, decor):
+    """text / tails / comments set through the lxml API"""
+    from lxml import etree
+    for path, kind, s in decor:
+        n = node(path)
+        if kind == 'text': n.text = s
+        elif kind == 'tail' and path: n.tail = s
+        elif kind == 'comment': n.append(etree.Comment(s))
+
+
+def run_program(case, o):
+    from ncclient import xml_
+    root, mops, node = build_program(case['ops'])
     mem = X.m_strip(X.lx_mnode(root))
     def post_mem(v):
         return canon_m(X.m_strip(v[0])) if v else None
@@ -248,12 +272,7 @@ def run_program(case, o):
     wrinkle = X.canon(X.lx_tree(root)) != ind
     o.hist['program'] = 'wrinkle(un-namespaced child in default scope)' if wrinkle else 'plain'
     # decorate with text/tails/comments through the lxml API, then the round-trip oracle
-    from lxml import etree
-    for path, kind, s in case.get('decor', []):
-        n = node(path)
-        if kind == 'text': n.text = s
-        elif kind == 'tail' and path: n.tail = s
-        elif kind == 'comment': n.append(etree.Comment(s))
+    decorate(node, case.get('decor', []))
     want = X.canon(X.lx_resolved(root))
     out = xml_.to_xml(root)
     ok, nd = decl_ok(out)
@@ -266,11 +285,205 @@ def run_program(case, o):
     if ind != want: o.fail('independent reader reads the constructed tree differently', expected=want, actual=ind)
 
 
+# ------------------------------------------------------------------ histories of calls on one caller-owned tree
+def validated_rule(tag, keyset, tags, pattrs):
+    """(some alternative is malformed?, accepted by the property's rule?)"""
+    alts = [a for r in (pattrs or []) for a in ([r] if isinstance(r, str) else r)]
+    malformed = any(a == '' or (a.startswith('{') and ('}' not in a or a.endswith('}'))) for a in alts)
+    tl = [] if not tags else ([tags] if isinstance(tags, str) else list(tags))
+    norm = lambda a: a[2:] if a.startswith('{}') else a
+    want = (not tl or tag in tl) and all(any(norm(a) in keyset for a in ([r] if isinstance(r, str) else r)) for r in (pattrs or []))
+    return malformed, want
+
+
+def check_serialised(o, label, out, want, blanks_free=False):
+    """`out` is one document: exactly one declaration, and both to_ele and the independent reader see `want`
+    (blanks_free: modulo white-space-only text, for pretty-printed output)."""
+    from ncclient import xml_
+    if isinstance(out, bytes): out = out.decode('utf-8')
+    ok, n = decl_ok(out)
+    if not ok: o.fail(label + ': not exactly one XML declaration', expected=1, actual=n)
+    cn = (lambda t: X.canon(t, drop_blank=True)) if blanks_free else X.canon
+    want = cn(want)
+    try: back = cn(X.lx_tree(xml_.to_ele(out)))
+    except Exception as ex: back = 'to_ele: ' + exc_name(ex)
+    if back != want: o.fail(label + ': to_ele(to_xml(t)) is not equivalent to t', expected=want, actual=back)
+    try: ind = cn(X.indep_read(out))
+    except ValueError as ex: ind = str(ex)
+    if ind != want: o.fail(label + ': independent reader reads to_xml(t) differently', expected=want, actual=ind)
+
+
+OBSERVERS = ('to_xml', 'to_ele', 'validated', 'parse_root', 'parse', 'nce', 'probe')
+PATH_STEPS = ('to_xml', 'to_ele', 'validated', 'parse_root', 'replace', 'sub_ele', 'sub_ele_ns')
+
+def hist_view(trace, flags_upto):
+    """comparable form of a history trace [[mnode after the call, result]..]: names as stored, attribute order,
+    text and tails of the whole tree after every call; prefix flags for constructor-built trees until the first
+    replace_namespace (lxml's re-binding after a rename is not modelled)"""
+    out = []
+    for i, (st, ob) in enumerate(trace):
+        ob = [ob[0], m_to_x(ob[1])] if ob[0] in (1, 2) else ob
+        out.append([m_to_x(st), canon_m(X.m_strip(st)) if i < flags_upto else None, ob])
+    return out
+
+
+def run_history(case, o):
+    """A caller keeps ONE tree and hands elements of it to the helpers, in some order.  After every call: observers
+    left the tree (and their argument objects) exactly as they were, in-place helpers changed the element they were
+    given as documented and nothing beside it; every result is the one the property demands of the tree as it then is
+    (for parsed documents, until the first in-place edit: of the document as the independent reader sees it)."""
+    from ncclient import xml_
+    src = case.get('src')
+    if src is not None:
+        root = xml_.to_ele(src)
+        def node(path):
+            n = root
+            for i in path: n = n[i]
+            return n
+        try: ref0 = X.canon(X.indep_read(src))
+        except ValueError: ref0 = None
+    else:
+        root, _, node = build_program(case['ops']); decorate(node, case.get('decor', []))
+        ref0 = None
+    ref = ref0
+    init_m = X.lx_mnode(root)
+    mops, trace, flags_upto = [], [], None
+    snap = H.snapshot(root)
+    tails_done, tail_then_ancestor = [], False
+    for si, st in enumerate(case['steps']):
+        k = st[0]
+        path = list(st[1]) if k in PATH_STEPS else []
+        n = node(path)
+        label = 'history step %d (%s at /%s)' % (si, k, '/'.join(map(str, path)))
+        before = snap
+        want = X.canon(H.x_at(ref, path)) if ref is not None else X.canon(X.lx_resolved(n))
+        tag0, keys0 = str(n.tag), [str(a) for a in n.attrib.keys()]
+        obs, mop = [2, X.lx_mnode(n)], [1, path]         # steps the model does not know are 'look at the element'
+        if k == 'to_xml':
+            enc, pretty = st[2], bool(st[3])
+            kw = {}
+            if enc is not None: kw['encoding'] = enc
+            if pretty: kw['pretty_print'] = True
+            if any(path == q[:len(path)] and path != q for q in tails_done): tail_then_ancestor = True
+            if path and n.tail: tails_done.append(path)
+            check_serialised(o, label, xml_.to_xml(n, **kw), want, blanks_free=pretty)
+            obs, mop = [1, X.lx_mnode(n)], [0, path, B(enc or 'UTF-8')]
+        elif k == 'to_ele':
+            r = xml_.to_ele(n)
+            if r is not n: o.fail(label + ': to_ele(element) did not return that element')
+        elif k == 'validated':
+            tags, attrs = py_tags(st[2]), st[3]
+            pattrs = None if attrs is None else [py_tags(r) for r in attrs]
+            a_tags, a_attrs = copy.deepcopy(tags), copy.deepcopy(pattrs)
+            try:
+                r = xml_.validated_element(n, a_tags, a_attrs); res = 0
+                if r is not n: o.fail(label + ': validated_element(element) returned another object')
+            except xml_.XMLError as ex: res = 1 if 'does not meet requirement' in str(ex) else 2
+            except ValueError: res = 3
+            except Exception as ex: res = 'exc:' + exc_name(ex)
+            if (a_tags, a_attrs) != (tags, pattrs):
+                o.fail(label + ': validated_element modified its tags/attrs arguments', expected=[repr(tags), repr(pattrs)], actual=[repr(a_tags), repr(a_attrs)])
+            malformed, acc = validated_rule(tag0, set(keys0), tags, pattrs)
+            if not malformed and acc != (res == 0):
+                o.fail(label + ': validated_element accepts=%r but the rule says %r' % (res == 0, acc), expected=acc, actual=res)
+            if tags is None: mt = []
+            elif isinstance(tags, str): mt = [0, B(tags)]
+            else: mt = [1, [B(t) for t in tags]]
+            mr = [[0, B(r)] if isinstance(r, str) else [1, [B(a) for a in r]] for r in (pattrs or [])]
+            obs, mop = [3, res], [2, path, mt, mr]
+        elif k == 'parse_root':
+            try: pr = xml_.parse_root(xml_.to_xml(n)); pr = [X._lx_name(pr[0]), sorted([X._lx_name(a), B(v)] for a, v in pr[1].items())]
+            except Exception as ex: pr = exc_name(ex)
+            if pr != [want[1], want[2]]:
+                o.fail(label + ': parse_root(to_xml(element)) is not the element\'s tag and attributes', expected=[want[1], want[2]], actual=pr)
+        elif k == 'parse':
+            text = src if src is not None else xml_.to_xml(root)
+            try: rd = X.canon(X.indep_read(text))
+            except ValueError as ex: rd = str(ex)
+            try:
+                e2 = xml_.to_ele(text); got = X.canon(X.lx_tree(e2))
+                if e2 is root: o.fail(label + ': to_ele(text) returned the caller\'s earlier tree')
+            except Exception as ex: got = 'to_ele: ' + exc_name(ex)
+            if got != rd: o.fail(label + ': a fresh to_ele of the document differs from the independent reading', expected=rd, actual=got)
+        elif k == 'nce':
+            class R: pass
+            r = R(); r._root = root
+            nce = xml_.NCElement(r, (lambda x: x))
+            if st[1] == 'data_xml': check_serialised(o, label + ' data_xml', nce.data_xml, want)
+            else:
+                # the pretty-printed rendering (ASCII with character references; not a C17 serialiser): only what it
+                # leaves behind is looked at
+                try: nce.tostring if st[1] == 'tostring' else str(nce)
+                except Exception: o.hist['history: NCElement.tostring'] = 'raised (not compared)'
+        elif k == 'probe':
+            e1 = xml_.new_ele('probe'); made = [e1, xml_.new_ele_ns('probe', None), xml_.new_ele_nsmap('probe', {}), xml_.sub_ele(e1, 'k'), xml_.sub_ele_ns(e1, 'k', None)]
+            if any(len(x.attrib) for x in made) or len(e1) != 2 or any(x.text or x.tail for x in made):
+                o.fail(label + ': a constructor called without attributes made an element with attributes/text',
+                       expected=[[]] * 5, actual=[sorted(x.attrib.items()) for x in made])
+        elif k == 'replace':
+            old, new = st[2], st[3]
+            bt = X.lx_tree(n)
+            try: xml_.replace_namespace(n, old, new); err = None
+            except Exception as ex: err = exc_name(ex)
+            if err: o.fail(label + ': replace_namespace raised ' + err, expected='renamed tree', actual=err)
+            elif not rename_collides(bt, old, new):
+                w = X.canon(spec_rename(bt, old, new))
+                if X.canon(X.lx_tree(n)) != w:
+                    o.fail(label + ': replace_namespace did not rename exactly the names of the old namespace below the element it was given', expected=w, actual=X.canon(X.lx_tree(n)))
+            obs, mop = [0], [3, path, nsval(old), nsval(new)]
+            ref = None
+            if flags_upto is None: flags_upto = si
+        elif k in ('sub_ele', 'sub_ele_ns'):
+            tag = st[2]; ns = st[3] if k == 'sub_ele_ns' else None; attrs = st[-1]
+            d = None if attrs is None else dict(attrs); d0 = copy.deepcopy(d)
+            pns = X.lx_resolved(n)[1][0]
+            args = (n, tag) + ((ns,) if k == 'sub_ele_ns' else ()) + (() if d is None else (d,))
+            c = getattr(xml_, k)(*args)
+            if d != d0: o.fail(label + ': the attribute dictionary handed to the constructor was modified', expected=d0, actual=d)
+            nb, na = H.node_at(before['root'], path), snap_node_of(n)
+            if na[:6] != nb[:6] or na[6][:-1] != nb[6] or len(na[6]) != len(nb[6]) + 1:
+                o.fail(label + ': the parent did not keep everything it had', expected=nb, actual=[na[:6], na[6][:-1]],
+                       sig=None)
+            else:
+                cs, ctail = na[6][-1]
+                wname = [[B(ns)] if ns else [], B(tag)] if k == 'sub_ele_ns' else [pns, B(tag)]
+                gname = X.lx_resolved(c)[1]
+                if k == 'sub_ele_ns' and not ns: gname = X._lx_name(c.tag)
+                if (c is not n[-1] or ctail is not None or cs[0] != 'e' or cs[5] is not None or cs[6] != [] or gname != wname
+                        or cs[4] != [[a, v] for a, v in (d0 or {}).items()]):
+                    o.fail(label + ': the new last child is not the element asked for', expected=[wname, list((d0 or {}).items())], actual=[gname, cs[4], cs[5], ctail, cs[6]])
+            mop = [4, path, B(tag), attrs_val(attrs or [])] if k == 'sub_ele' else [5, path, B(tag), nsval(ns), attrs_val(attrs or [])]
+            obs = [0]
+            ref = None
+        after = H.snapshot(root)
+        if k in OBSERVERS:
+            if after != before:
+                o.fail(label + ': the call changed the caller\'s tree: ' + str(H.first_diff(before, after)),
+                       expected='the tree as it was before the call', actual=str(H.first_diff(before, after)))
+        else:
+            fb, fa = H.mask(before, path), H.mask(after, path)
+            if fb != fa:
+                o.fail(label + ': the in-place helper changed something beside the element it was given: ' + str(H.first_diff(fb, fa)),
+                       expected='unchanged outside /' + '/'.join(map(str, path)), actual=str(H.first_diff(fb, fa)))
+        snap = after
+        mops.append(mop); trace.append([X.lx_mnode(root), obs])
+    upto = len(trace) if flags_upto is None else flags_upto
+    if src is not None: upto = 0          # a parsed document may re-declare a namespace redundantly, which nsmap does not show
+    o.model([9, init_m, mops], hist_view(trace, upto), 'history: the tree and the result after every call vs htrace',
+            post=lambda v: hist_view(v, upto))
+    o.hist['history'] = 'observers only' if flags_upto is None and all(s[0] in OBSERVERS for s in case['steps']) else 'with in-place edits'
+    o.hist['history: sub-element with a tail serialised before an ancestor'] = 'yes' if tail_then_ancestor else 'no'
+
+
+def snap_node_of(n): return H.snap_node(n)
+
+
 def canon_m(m):
     if m[0] != 0: return m
     return [0, m[1], m[2], sorted(m[3]), [canon_m(k) for k in m[4]]]
 
-KINDS = {'doc': run_doc, 'subtail': run_subtail, 'validated': run_validated, 'replace': run_replace, 'program': run_program}
+KINDS = {'doc': run_doc, 'subtail': run_subtail, 'validated': run_validated, 'replace': run_replace, 'program': run_program,
+         'history': run_history}
 
 def evaluate(case):
     o = Out()
@@ -368,22 +581,22 @@ def gen_attrs(rng):
 def gen_program(rng):
     r = rng.random()
     tag = rng.choice(CT_NAMES)
-    if r < 0.3: ops = [['new_ele', tag, gen_attrs(rng)]]
-    elif r < 0.6: ops = [['new_ele_ns', tag, rng.choice(CT_NS), gen_attrs(rng)]]
+    if r < 0.3: ops = [['new_ele', tag, opt_attrs(rng, gen_attrs(rng))]]
+    elif r < 0.6: ops = [['new_ele_ns', tag, rng.choice(CT_NS), opt_attrs(rng, gen_attrs(rng))]]
     else:
         m = []
         for _ in range(rng.choice([0, 1, 1, 2, 3])):
             p = rng.choice([None, None, 'nc', 'p', 'q'])
             if p in [x[0] for x in m]: continue
             m.append([p, rng.choice([BASE, BASE, 'urn:u', 'urn:v'])])
-        ops = [['new_ele_nsmap', tag, m, gen_attrs(rng)]]
+        ops = [['new_ele_nsmap', tag, m, opt_attrs(rng, gen_attrs(rng))]]
     shape = [0]                       # number of children per path, kept as dict path->count
     kids = {(): 0}
     for _ in range(rng.randint(0, 7)):
         path = rng.choice(sorted(kids))
         t = rng.choice(CT_NAMES)
-        if rng.random() < 0.6: ops.append(['sub_ele', list(path), t, gen_attrs(rng)])
-        else: ops.append(['sub_ele_ns', list(path), t, rng.choice(CT_NS), gen_attrs(rng)])
+        if rng.random() < 0.6: ops.append(['sub_ele', list(path), t, opt_attrs(rng, gen_attrs(rng))])
+        else: ops.append(['sub_ele_ns', list(path), t, rng.choice(CT_NS), opt_attrs(rng, gen_attrs(rng))])
         kids[path + (kids[path],)] = 0; kids[path] += 1
     decor = []
     for path in sorted(kids):
@@ -392,6 +605,78 @@ def gen_program(rng):
     leafs = [p for p in sorted(kids) if kids[p] == 0]
     if leafs and rng.random() < 0.3: decor.append([list(rng.choice(leafs)), 'comment', X.gen_comment(rng)])
     return {'kind': 'program', 'ops': ops, 'decor': decor}
+
+def opt_attrs(rng, a):
+    """an empty attribute dictionary is passed explicitly or left to the helper's default"""
+    return None if not a and rng.random() < 0.5 else a
+
+def program_counts(ops, decor):
+    """{path: number of lxml children} and {path: (tag, attrs)} of the tree a constructor program builds"""
+    counts, info = {}, {}
+    for op in ops:
+        if op[0].startswith('new_'): counts[()] = 0; info[()] = (op[1], op[-1] or [])
+        else:
+            p = tuple(op[1]); c = p + (counts[p],)
+            counts[p] += 1; counts[c] = 0; info[c] = (op[2], op[-1] or [])
+    for path, kind, _ in decor:
+        if kind == 'comment': counts[tuple(path)] += 1
+    return counts, info
+
+def gen_history(rng, src=None, exp=None, prog=None):
+    if prog is None:
+        counts = H.lx_child_counts(exp)
+        def info(p):
+            try:
+                t = H.x_at(exp, p); return [0, t[1], t[2]]
+            except Exception: return None
+        present = sorted(nss_of(exp))
+        none_ok = 'xmlns=' not in src           # new_ns=None under a default namespace: readers still see the default (notes)
+        case = {'kind': 'history', 'src': src}
+    else:
+        counts, pinfo = program_counts(prog['ops'], prog['decor'])
+        def info(p):
+            x = pinfo.get(tuple(p))
+            return [0, [[B(BASE)], B(x[0])], attrs_val(x[1])] if x else None
+        present = [BASE, 'urn:u', 'urn:v']
+        none_ok = False
+        case = {'kind': 'history', 'ops': prog['ops'], 'decor': prog['decor']}
+    added = {}
+    steps, replaced = [], False
+    for _ in range(rng.randint(2, 7)):
+        paths = sorted(counts)
+        inner = [p for p in paths if p]
+        p = rng.choice(inner) if inner and rng.random() < 0.65 else rng.choice(paths)
+        path = list(p)
+        r = rng.random()
+        if r < 0.36:
+            steps.append(['to_xml', path, rng.choice([None, None, None, 'UTF-8', 'utf-8']), rng.random() < 0.15])
+        elif r < 0.46:
+            e = added.get(p) or info(p) or [0, [[], b'a'], []]
+            v = gen_validated(rng, '', e)
+            steps.append(['validated', path, v['tags'], v['attrs']])
+        elif r < 0.50: steps.append(['to_ele', path])
+        elif r < 0.55: steps.append(['parse_root', path])
+        elif r < 0.60: steps.append(['parse'])
+        elif r < 0.64: steps.append(['nce', rng.choice(['data_xml', 'data_xml', 'tostring', 'str'])])
+        elif r < 0.67: steps.append(['probe'])
+        elif r < 0.80:
+            old = rng.choice(present + present + [None, 'urn:absent']) if present else rng.choice([None, 'urn:absent'])
+            new = rng.choice(present + ['urn:new', 'urn:new', 'urn:v'] + ([None] if none_ok else []))
+            steps.append(['replace', path, old, new]); replaced = True
+        else:
+            tag = rng.choice(CT_NAMES); a = opt_attrs(rng, gen_attrs(rng))
+            # parent_ns needs the parent's binding: not modelled after a rename, nor for elements added to a parsed
+            # document (redundant re-declarations are invisible in nsmap)
+            if r < 0.92 and not replaced and not (prog is None and p in added):
+                steps.append(['sub_ele', path, tag, a])
+            else:
+                steps.append(['sub_ele_ns', path, tag, rng.choice(CT_NS[1:]), a])
+            c = p + (counts[p],)
+            counts[p] += 1; counts[c] = 0; added[c] = [0, [[B(BASE)], B(tag)], attrs_val(a or [])]
+    steps.append(['to_xml', [], None, False])        # whatever happened before, the whole tree must still say what it said
+    case['steps'] = steps
+    return case
+
 
 def ascii_only_doc(rng):
     g = X.DocGen(rng, max_depth=2, names=['a', 'b', 'data', 'x'])
@@ -423,10 +708,20 @@ def cases_for(ctx):
             b, e2 = ascii_only_doc(rng)
             out.append({'kind': 'doc', 'src': b, 'encoding': 'ISO-8859-1', 'wellformed': True})
         out.append(gen_program(rng))
+        if i % 2 == 0:
+            out.append(gen_history(rng, src=body, exp=exp) if i % 8 else gen_history(rng, prog=gen_program(rng)))
     return out
 
 # hand-written cases that pin the known corners (run first, with the corpus)
 PINNED = [
+    {'kind': 'history', 'src': '<a xmlns="urn:u" xmlns:p="urn:u" p:k="1"><b/>t</a>', 'steps': [['replace', [], 'urn:u', 'urn:v'], ['validated', [], '{urn:v}a', ['{urn:v}k']], ['replace', [], 'urn:v', 'urn:w'], ['to_xml', [], None, False]]},
+    {'kind': 'history', 'src': '<a><b>x</b>tail<c/></a>', 'steps': [['to_xml', [0], None, False], ['to_xml', [], None, False]]},
+    {'kind': 'history', 'src': '<rpc-reply xmlns="urn:ietf:params:xml:ns:netconf:base:1.0" message-id="7">\r\n  <data>\n    <x:c xmlns:x="urn:y">v &amp; w</x:c>\n\t</data>\n</rpc-reply>',
+     'steps': [['to_xml', [0], None, False], ['validated', [], '{urn:ietf:params:xml:ns:netconf:base:1.0}rpc-reply', ['message-id']], ['nce', 'data_xml'], ['to_xml', [0, 0], 'UTF-8', True], ['to_xml', [], None, False]]},
+    {'kind': 'history', 'src': '<a xmlns:p="urn:u"><p:b p:k="1">t</p:b>tail<c/>z<!--k--></a>',
+     'steps': [['to_xml', [0], None, False], ['replace', [0], 'urn:u', 'urn:v'], ['sub_ele_ns', [1], 'n', 'urn:w', [['a', '1']]], ['probe'], ['to_xml', [1], None, False], ['parse'], ['to_xml', [], None, False]]},
+    {'kind': 'history', 'ops': [['new_ele_nsmap', 'hello', [[None, BASE]], None], ['sub_ele', [], 'capabilities', None]], 'decor': [[[0], 'tail', ' \n']],
+     'steps': [['to_xml', [0], None, False], ['sub_ele', [0], 'capability', None], ['parse_root', [0]], ['to_xml', [], None, False]]},
     {'kind': 'subtail', 'src': '<a><b>x</b>tail<c/></a>', 'path': [0]},
     {'kind': 'replace', 'src': '<a xmlns:p="urn:u" p:x="1"><?pi z?><p:b/></a>', 'old': 'urn:u', 'new': 'urn:v'},
     {'kind': 'replace', 'src': '<a xmlns:p="urn:u" xmlns:q="urn:v" p:x="1" q:x="2"/>', 'old': 'urn:u', 'new': 'urn:v'},
@@ -440,6 +735,7 @@ PINNED = [
 
 def nontrivial(case):
     if case['kind'] == 'program': return len(case['ops']) >= 2
+    if case['kind'] == 'history': return len(case['steps']) >= 2
     return case['src'].count('<') >= 3 or '="' in case['src'] or "='" in case['src']
 
 def jsonable(c):
